@@ -69,6 +69,17 @@ def run(c):
     # ---- non-numeric half: normalisers, scenario notes, map order, leaf codecs (model correspondence + direct judgement) ----
     c04norm.run_all(c, quick)
     _ph(c, 2)
+    # ---- corpus: the documents of repaired fixpoint defects (findings/C04.json `fixed`) ----
+    import glob as _g0
+    cfiles = sorted(_g0.glob(os.path.join(VERIF, "corpus", "C04", "*.json")))
+    for f, r in zip(cfiles, run_go(["c04 fix " + w(open(f, "rb").read()) for f in cfiles]) if cfiles else []):
+        v = parse_wire(r)
+        c.count("corpus", 1, f)
+        if v and isinstance(v[0], list) and v[0] and v[0][0] == b"diff":
+            c.report("corpus document %s: repeating serialise/parse/calculate changes the document at %s (round %s)" % (os.path.basename(f), v[0][2].decode(), v[0][1]),
+                     {"corpus": os.path.relpath(f, VERIF), "result": r, "clause": "calculate -> serialise -> parse -> calculate yields byte-identical JSON"})
+        elif is_err(v):
+            c.report("corpus document %s no longer calculates: %s" % (os.path.basename(f), r[:200]), {"corpus": os.path.relpath(f, VERIF), "result": r}, no_input=True)
     # ---- every example ----
     exs = examples()
     if len(exs) < 50:
